@@ -706,9 +706,8 @@ def run_impl(spec):
             for e in cl:
                 if e["remaining"] is None:
                     mon.append({"signature": "c16:random-clone-loses-restrict-configurations",
-                                "what": "the searcher restored by clone_from_state has _restrict_configurations=None although the "
-                                        "original was restricted (remaining list of the original: "
-                                        f"{[x['remaining'] for x in ev if x['ev'] == 'caller-list'][-2:]!r})"})
+                                "what": "the searcher restored by clone_from_state has _restrict_configurations=None (no "
+                                        "restriction) although the original was created with restrict_configurations"})
                     break
         return {"lines": t["lines"], "monitor": mon, "meta": {"hist": hist, "nontrivial": sugg_after > 0}}
     t = S.run_gp_scenario(spec)
